@@ -14,7 +14,8 @@ def read_source_file(file_path: Path,
                      ) -> ParseSource:
     try:
         return new_for_file(file_path)
-    except (OSError, UnicodeDecodeError) as ex:
+    except (OSError, ValueError) as ex:
+        # ValueError: the file is not valid UTF-8 (UnicodeDecodeError), or the path cannot be given to the OS (NUL character)
         raise FileAccessError(file_path_for_error_message,
                               str(ex),
                               file_inclusion_chain,
